@@ -99,6 +99,10 @@ func (e *evictorProxy) Evict(ctx context.Context, pod *corev1.Pod, opts framewor
 	if len(e.handle.evictPlugins) == 0 {
 		panic("No Evictor plugin is registered in the frameworkImpl.")
 	}
+	// AllowEvict, the eviction and Done form one critical section: otherwise concurrent callers
+	// could all pass AllowEvict before any of them has been counted by Done and exceed the limits.
+	e.handle.evictLock.Lock()
+	defer e.handle.evictLock.Unlock()
 	if !e.AllowEvict(pod) {
 		return false
 	}
